@@ -289,6 +289,16 @@ def run_shard(shard, rec):
                     check_cli(case, rec)
 
 
+def finalize(merged, tier, inconclusive):
+    seen = merged.hist.get("operation", {})
+    for op in remodel.MODELS:
+        if seen.get(op, 0) < 10:
+            inconclusive.append(f"operation '{op}' was exercised {seen.get(op, 0)} times (< 10)")
+    kinds = merged.hist.get("invalid-kind", {})
+    if len(kinds) < 8:
+        inconclusive.append(f"only {len(kinds)} kinds of invalid operation lists were exercised")
+
+
 def replay(case, rec):
     k = case.get("kind")
     if k == "valid":
